@@ -1229,6 +1229,9 @@ def consume_list(ctx, op, xs, extra, ret_ty, dest, nxt):
     ex, st = ctx.ex, ctx.st
     if op == 'count':
         return [(None, z3.BitVecVal(len(xs), 64))]
+    if op == '__extend':
+        shaped(ex, st, extra[0], 'vec').attrs['items'].extend(xs)
+        return [(None, ())]
     if op == 'collect' or op == 'unzip':
         return [(None, collect_into(ex, st, xs, ret_ty))]
     if op == 'last':
@@ -1397,8 +1400,21 @@ def m_map(ctx):
     if op == 'clear':
         items.clear(); return [(None, ())]
     if op in ('sort_unstable_keys', 'sort_keys'):
-        m.attrs['sorted'] = True
-        return [(None, ())]
+        import itertools
+        ks = [ex.deref_val(st, k) for k, _ in items]
+        if len(items) <= 1:
+            m.attrs['sorted'] = True
+            return [(None, ())]
+        if len(items) > 4 or not all(z3.is_bv(k) for k in ks):
+            raise MirError('sort of a map with more than 4 or non-scalar keys')
+        alts = []
+        for perm in itertools.permutations(range(len(items))):
+            cond = z3.And(*[z3.ULT(ks[perm[i]], ks[perm[i + 1]]) for i in range(len(perm) - 1)])
+            def mk(s2, perm=perm):
+                mm = s2.tr(m); old = list(mm.attrs['items']); mm.attrs['items'] = [old[i] for i in perm]; mm.attrs['sorted'] = True; mm.attrs.pop('unsorted', None)
+                return ()
+            alts.append((cond, mk))
+        return alts
     if op in ('get', 'get_mut', 'contains_key', 'contains', 'get_key_value'):
         key = ctx.args[1]
         if op in ('contains_key', 'contains'):
@@ -1620,6 +1636,10 @@ def m_vec_extend(ctx):
     ex, st = ctx.ex, ctx.st
     v = shaped(ex, st, ctx.args[0], 'vec')
     src = ex.deref_val(st, ctx.args[1])
+    if isinstance(src, Obj) and src.kind == 'mapiter':
+        xs = drain_iter(ex, st, src.attrs['inner'])
+        c = Cont('mapcollect', pending=xs, done=[], f=src.attrs['f'], op='__extend', callee=ctx.callee, args=[ctx.args[0]], dest=ctx.dest, nxt=ctx.nxt, ret_ty=ctx.ret_ty)
+        return _mapcollect_step(ex, st, c, ctx.work)
     if isinstance(src, Obj) and src.kind == 'iter':
         if src.attrs.get('fn') or src.attrs.get('mode') not in ('val', None):
             raise MirError('Vec::extend from a lazy iterator')
